@@ -22,15 +22,16 @@ Definition word_byte (c : Z) : bool :=
 (* a line of the form  __name__\n  with name one or more letters, digits, underscores *)
 Fixpoint all_word_then_nl (l : list Z) : bool :=
   match l with
-  | [10] => true
-  | c :: r => word_byte c && all_word_then_nl r
   | [] => false
+  | c :: r => match r with [] => c =? 10 | _ => word_byte c && all_word_then_nl r end
   end.
 Fixpoint ends_uu_nl (l : list Z) : bool :=
   match l with
-  | [95; 95; 10] => true
-  | _ :: r => ends_uu_nl r
   | [] => false
+  | a :: r => match r with
+              | [b; c] => (a =? 95) && (b =? 95) && (c =? 10)
+              | _ => ends_uu_nl r
+              end
   end.
 Definition header_like (line : list Z) : bool :=
   match line with
